@@ -1471,6 +1471,17 @@ func ruleIndexRangeExact(r *Run) {
 			fmt.Sprintf("%s removes the body element at its index argument: %s", shortName(fn),
 				map[bool]string{true: "the range test compares the index with 0 and len(Body.Elements) only", false: bad + ", not with len(Body.Elements) itself — for some history an existing element's index is rejected (nothing is removed although the target exists) or a non-existent one is admitted"}[bad == ""]))
 	}
+	// the entry point for removal by element index splices AT its argument: a position computed from
+	// it (content elements counted, section settings skipped, …) is some other element's index
+	if anchor := r.mustFunc(pkgDoc, "(*Document).RemoveElementAt"); anchor != nil {
+		direct := removesAtParam(p, anchor, 0) >= 0
+		if !direct {
+			n++
+		}
+		r.Check("index-range-exact", shortName(anchor)+":position", anchor.Pos(), direct,
+			fmt.Sprintf("%s removes the element of Body.Elements whose index it is given: %s", shortName(anchor),
+				map[bool]string{true: "the splice position is the argument itself", false: "the splice position is not the argument (it is computed from it) — for some body the element removed is not the one at the index given, or an in-range index is rejected"}[direct]))
+	}
 	r.Min("remove_by_element_index_entry_points", n, 1)
 }
 
@@ -2338,7 +2349,13 @@ func (e *axisEval) eval(v ssa.Value) axisDim {
 		return out
 	case *ssa.Field:
 		fv, _ := fieldOfVal(x)
-		return fieldDim(fv)
+		if d := fieldDim(fv); d.known {
+			return d
+		}
+		if d, ok := e.carried(v); ok {
+			return d
+		}
+		return axisDim{}
 	case *ssa.UnOp:
 		if x.Op == token.SUB {
 			return e.eval(x.X)
@@ -2348,7 +2365,14 @@ func (e *axisEval) eval(v ssa.Value) axisDim {
 		}
 		if fa, ok := x.X.(*ssa.FieldAddr); ok {
 			fv, _ := fieldOfAddr(fa)
-			return fieldDim(fv)
+			if d := fieldDim(fv); d.known {
+				return d
+			}
+			// a value carried in a struct built by a helper (attrs := newDrawingAttrs(…, w, h); attrs.cx)
+			if d, ok := e.carried(v); ok {
+				return d
+			}
+			return axisDim{}
 		}
 		if al, ok := x.X.(*ssa.Alloc); ok && al.Referrers() != nil {
 			out := axisDim{}
@@ -2396,6 +2420,139 @@ func (e *axisEval) eval(v ssa.Value) axisDim {
 		return e.call(x, 0)
 	}
 	return axisDim{}
+}
+
+// carried: v reads a field of a struct value built by a module helper's composite literal, or a
+// field of a struct parameter (resolved at the call sites of an unexported function).
+func (e *axisEval) carried(v ssa.Value) (axisDim, bool) {
+	if rep, call := structFieldRep(v); rep != nil && call != nil {
+		return e.inCallee(rep, call), true
+	}
+	// through a POINTER to the struct: p.f with p a local literal, a constructor's result, or a
+	// pointer parameter of an unexported function (resolved at its call sites)
+	if ld, ok := v.(*ssa.UnOp); ok && ld.Op == token.MUL {
+		if fa, ok := ld.X.(*ssa.FieldAddr); ok {
+			if _, isPtr := fa.X.Type().Underlying().(*types.Pointer); isPtr {
+				if d, ok := e.ptrField(fa.X, fa.Field); ok {
+					return d, true
+				}
+			}
+		}
+	}
+	if prm, fi := paramFieldRead(v); prm != nil && fi >= 0 {
+		fn := prm.Parent()
+		if fn == nil || e.up >= 3 || (fn.Object() != nil && fn.Object().Exported()) {
+			return axisDim{}, false
+		}
+		pi := paramIndex(fn, prm)
+		out := axisDim{}
+		first := true
+		for _, cs := range staticCallSites(e.p, fn) {
+			if pi < 0 || pi >= len(cs.Common().Args) {
+				continue
+			}
+			rep, call := structFieldOf(cs.Common().Args[pi], fi, 0)
+			if rep == nil || call == nil {
+				return axisDim{}, false
+			}
+			sub := &axisEval{p: e.p, env: map[*ssa.Parameter]axisDim{}, seen: map[ssa.Value]bool{}, up: e.up + 1}
+			d := sub.inCallee(rep, call)
+			if first {
+				out, first = d, false
+			} else {
+				out = axisMeet(out, d, "alternatives")
+			}
+		}
+		return out, !first
+	}
+	return axisDim{}, false
+}
+
+// ptrField: the unit of field fi of the struct base points to.
+func (e *axisEval) ptrField(base ssa.Value, fi int) (axisDim, bool) {
+	fieldStore := func(al *ssa.Alloc) ssa.Value {
+		if al.Referrers() == nil {
+			return nil
+		}
+		var val ssa.Value
+		n := 0
+		for _, u := range *al.Referrers() {
+			if fa, ok := u.(*ssa.FieldAddr); ok && fa.Field == fi && fa.Referrers() != nil {
+				for _, u2 := range *fa.Referrers() {
+					if st, ok := u2.(*ssa.Store); ok && st.Addr == ssa.Value(fa) {
+						val = st.Val
+						n++
+					}
+				}
+			}
+		}
+		if n == 1 {
+			return val
+		}
+		return nil
+	}
+	switch b := base.(type) {
+	case *ssa.Alloc:
+		if val := fieldStore(b); val != nil {
+			return e.eval(val), true
+		}
+	case *ssa.Call:
+		cal := staticCallee(b)
+		if cal == nil || !e.p.inModule(cal) || len(cal.Blocks) == 0 {
+			return axisDim{}, false
+		}
+		rets := returnsOf(cal)
+		if len(rets) != 1 || len(rets[0].Results) != 1 {
+			return axisDim{}, false
+		}
+		if al, ok := rets[0].Results[0].(*ssa.Alloc); ok {
+			if val := fieldStore(al); val != nil {
+				return e.inCallee(val, b), true
+			}
+		}
+	case *ssa.Parameter:
+		fn := b.Parent()
+		if fn == nil || e.up >= 3 || (fn.Object() != nil && fn.Object().Exported()) {
+			return axisDim{}, false
+		}
+		pi := paramIndex(fn, b)
+		out := axisDim{}
+		first := true
+		for _, cs := range staticCallSites(e.p, fn) {
+			if pi < 0 || pi >= len(cs.Common().Args) {
+				continue
+			}
+			sub := &axisEval{p: e.p, env: map[*ssa.Parameter]axisDim{}, seen: map[ssa.Value]bool{}, up: e.up + 1}
+			d, ok := sub.ptrField(cs.Common().Args[pi], fi)
+			if !ok {
+				return axisDim{}, false
+			}
+			if first {
+				out, first = d, false
+			} else {
+				out = axisMeet(out, d, "alternatives")
+			}
+		}
+		return out, !first
+	}
+	return axisDim{}, false
+}
+
+// inCallee: evaluate rep, a value of call's callee, with the callee's parameters bound to the
+// units of the call's arguments.
+func (e *axisEval) inCallee(rep ssa.Value, call *ssa.Call) axisDim {
+	cal := staticCallee(call)
+	if cal == nil {
+		return axisDim{}
+	}
+	env := map[*ssa.Parameter]axisDim{}
+	for i, par := range cal.Params {
+		if i < len(call.Call.Args) {
+			env[par] = e.eval(call.Call.Args[i])
+		}
+	}
+	sub := &axisEval{p: e.p, env: env, depth: e.depth + 1, seen: map[ssa.Value]bool{}, up: e.up}
+	return sub.eval(rep)
 }
 
 func (e *axisEval) call(c *ssa.Call, idx int) axisDim {
